@@ -50,6 +50,12 @@ type keyModel struct {
 	cands    []kstate // otherwise: the key is in exactly one of these states
 	prov     string   // label of the last mutation (for signatures)
 	reloaded bool     // the swamp was evicted since the last mutation
+	// loose: the key went through an unspecified situation (wildcard). Reads may have pinned its
+	// visible state since, but whether that state is also what the storage holds, and whether an
+	// unsaved change is still pending, is as unspecified as the situation itself: until the next
+	// definite write an identical Set may answer UPDATED, and an eviction makes the key a
+	// wildcard again.
+	loose bool
 }
 
 type swampModel struct {
@@ -111,6 +117,7 @@ func (km *keyModel) possiblyPresent() bool {
 }
 
 func (km *keyModel) setAbsent(prov string) {
+	km.loose = false
 	km.wild = false
 	km.cands = []kstate{{Absent: true}}
 	km.prov = prov
@@ -118,6 +125,7 @@ func (km *keyModel) setAbsent(prov string) {
 }
 
 func (km *keyModel) setWild(prov string) {
+	km.loose = true
 	km.wild = true
 	km.cands = nil
 	km.prov = prov
@@ -142,7 +150,7 @@ func (km *keyModel) label() string {
 	if km.cands[0].Absent {
 		return "absent"
 	}
-	return km.cands[0].R.Val.K.class()
+	return km.cands[0].R.Val.K.sigClass()
 }
 
 // exist: "When the last Treasure is removed from a Swamp, the Swamp itself is removed"
@@ -178,6 +186,9 @@ func (s *swampModel) countRange() (lo, hi int) {
 func (s *swampModel) mode() string {
 	if s.cfg.InMem {
 		return "mem"
+	}
+	if s.cfg.WriteSec == 0 {
+		return "disk-immediate" // WriteInterval 0: every Save is flushed at once
 	}
 	return "disk"
 }
@@ -292,7 +303,7 @@ func matchRecord(rpc string, km *keyModel, r record, t obsTreasure) (record, *vi
 			return r, &viol{fmt.Sprintf("reload:zero-value-lost:kind=%s", r.Val.K.class()), fmt.Sprintf("key %s: model holds %s (written by %s), after eviction and reload %s returned %s", t.Key, r.Val, km.prov, rpc, t)}
 		}
 		if mk != ok {
-			return r, &viol{fmt.Sprintf("read:%s:kind:model=%s%s:obs=%s%s", rpc, r.Val.K.class(), zeroMark(r.Val), ov.K.class(), provSuffix(km)),
+			return r, &viol{fmt.Sprintf("read:%s:kind:model=%s%s:obs=%s%s", rpc, r.Val.K.sigClass(), zeroMark(r.Val), ov.K.sigClass(), provSuffix(km)),
 				fmt.Sprintf("key %s: model holds %s, %s returned %s", t.Key, r.Val, rpc, t)}
 		}
 		return r, &viol{fmt.Sprintf("read:%s:value:kind=%s%s%s", rpc, r.Val.K.class(), zeroMark(r.Val), provSuffix(km)),
@@ -367,7 +378,7 @@ func (m *model) readKey(rpc string, sm *swampModel, key string, found *obsTreasu
 			return nil, &viol{fmt.Sprintf("read:%s:existence:model=absent:obs=present%s", rpc, provSuffix(km)), fmt.Sprintf("key %s/%s: model says absent, %s returned %s", sm.cfg.Name, key, rpc, *found)}
 		}
 		if obsAbsent {
-			return nil, &viol{fmt.Sprintf("read:%s:existence:model=%s%s:obs=absent%s", rpc, s.R.Val.K.class(), zeroMark(s.R.Val), provSuffix(km)), fmt.Sprintf("key %s/%s: model holds %s, %s did not return it", sm.cfg.Name, key, s.R.Val, rpc)}
+			return nil, &viol{fmt.Sprintf("read:%s:existence:model=%s:obs=absent%s", rpc, s.R.Val.K.sigClass(), provSuffix(km)), fmt.Sprintf("key %s/%s: model holds %s, %s did not return it", sm.cfg.Name, key, s.R.Val, rpc)}
 		}
 		if keysOnly {
 			return []kstate{s}, nil
@@ -460,6 +471,7 @@ var unspecifiedPoints = []string{
 	"unspecified: conditional Increment on a key that does not exist when the condition is false against 0 (applied or not, key created or not)",
 	"unspecified: Increment with a failed condition and SetIfExist metadata — each touched field may keep the old or take the new value (taken from the response, then fixed)",
 	"unspecified: Increment / Uint32SlicePush / Uint32SliceDelete on a key holding a void value (error or treated as empty)",
+	"unspecified: after any of the unspecified situations above a key stays 'loose' until the next definite write: reads pin what is visible, but an identical Set may answer UPDATED and an eviction makes the key unconstrained again (whether the visible state had been persisted is part of what is unspecified)",
 	"unspecified: arithmetic overflow of an Increment (any answer accepted, key becomes unconstrained)",
 	"unspecified: Uint32SliceDelete that removes the last value — proto says the key is preserved, the SDK says the empty treasure (and an empty swamp) is removed; both accepted; Uint32SliceDelete on a non-slice key may fail or be a no-op but must not change the key",
 	"unspecified: order of values in a uint32 set after deletions (compared as a set); order and duplicates in multi-key answers",
